@@ -193,6 +193,13 @@ def cdStep (_st : Unit) (line : String) (t : Tally) : Except String (Unit × Tal
     else if natOf rest "size" > natOf rest "max" then
       .error s!"C14/C04: quiescent with {natOf rest "size"} entries above the maximum {natOf rest "max"}"
     else .ok ((), t)
+  | "order" :: rest =>
+    let t := t.bump "order_runs"
+    if natOf rest "bad" != 0 then
+      .error s!"C16: write events of ONE producer were processed out of submission order: of {natOf rest "writes"} successive writes of one key by one goroutine, the replaced value {natOf rest "first"} was reported after value {natOf rest "after"} ({natOf rest "bad"} inversions; the writer's hand-over after a full buffer overtook its older buffered events)"
+    else if natOf rest "reported" + 1 != natOf rest "writes" then
+      .error s!"C16/C06: {natOf rest "writes"} successive writes of one key replaced {natOf rest "writes" - 1} values but {natOf rest "reported"} were reported"
+    else .ok ((), t)
   | _ => .error "unknown line"
 
 /-! ### conc-mpsc: delivery-log judge (exactly once, per-producer order, no invention, no refusal below capacity) -/
@@ -204,10 +211,10 @@ structure CmSt where
 def cmStep (st : CmSt) (line : String) (t : Tally) : Except String (CmSt × Tally) :=
   let ws := splitWs line
   match ws with
-  | "scenario" :: kind :: _ => .ok ({ nextSeq := [], nofull := kind == "nofull" }, t.bump s!"scenario_{kind}")
+  | "scenario" :: kind :: _ => .ok ({ nextSeq := [], nofull := kind == "nofull" || kind == "ticket" }, t.bump s!"scenario_{kind}")
   | ["refused", p, n, _] =>
     if st.nofull && n != "0" then
-      .error s!"C16: producer {p} had {n} offer(s) refused although all offers together fit the maximum capacity and nothing was consumed"
+      .error s!"C16: producer {p} had {n} offer(s) refused although the queue never held its maximum capacity (all offers together fit it, or producers held one of capacity-1 tickets)"
     else .ok (st, t)
   | ["deliver", p, sq] =>
     let p := p.toNat!; let sq := sq.toNat!
